@@ -23,6 +23,8 @@ class C26(Spec):
                   "C29 between a restarted and a clean node), finalised height 0. Restart tied on the real node (close + "
                   "reopen on the same directory). Parachain main-sequence records are not modelled.")
     assumptions = (
+        "ProcessBlock calls are serialised (as C25); connectBlock/disconnectBlock themselves run under chainLock, so the "
+        "log invariants do not depend on it, but the run-level statements are about non-overlapping deliveries",
         "delivered blocks execute successfully; chains shorter than InitBlockNum (10240)",
         "LevelDB batch atomicity: the sequence record is written in the same batch as the block",
         "parachain mode (main-chain sequence records) is not modelled",
